@@ -126,3 +126,28 @@ check("C12", "exploration",
       "never changed. Overlapping call pairs and injected yields are counted; zero overlap would be inconclusive.",
       "timeout=0; RandomScorer excluded; schedules observed are those the interpreter produced under the injected yields",
       "history recorder + write barriers + digests vs fresh-process reference table; exhaustive two-stream interleaving; thread stress with sys.monitoring yield injection", "DESIGN.md 3/C12")
+
+check("C15", "other",
+      "Reference model per execution: an independent exhaustive derivation engine (all matches -> all maximal gap-free "
+      "sequences of maximal coverage -> closure under all rules at all windows) is compared with the real search on hundreds "
+      "(quick) / thousands (thorough) of short texts x 8 scorer/depth settings, with argument snapshots around every rule "
+      "application (millions) and re-snapshots of every yielded candidate: sound, productions replay, complete without "
+      "depth limit under constant/shipped/random scorers, pure.",
+      "the reference shares the regex engine and rule bodies with the library; graphs over the state cap are skipped and counted",
+      "argument-snapshot wrappers on every rule + candidate re-snapshots + independent derivation engine as executable reference", "DESIGN.md 3/C15")
+
+check("C17", "exploration",
+      "With a tee on the candidate stream the dataset builders consume, the emitted samples equal - per candidate, in order - "
+      "every non-empty prefix of its production, labelled by value equality with the gold (independent value model), for "
+      "every entry of the bundled dataset and corpus (thorough) and generated Time/Interval/Duration golds; duplicating a "
+      "positive example 1..20 times never lowered the retrained model's log-odds for its trace on thousands of random "
+      "training sets.",
+      "builder arguments timeout=0, max_stack_depth=10; monotonicity is a theorem for a correct model",
+      "stream tee bound in ctparse.corpus + conservation/label oracle; metamorphic retraining oracle", "DESIGN.md 3/C17")
+
+check("C09", "exploration",
+      "Paired executions (expression alone / embedded among 0-3 words before and after) for thousands of grammar and "
+      "bundled-corpus expressions x reference times: same resolution value, span equal to the alone span shifted by the "
+      "prefix, spanned characters without leading/trailing blank (also after latent anchoring); fillers count only when the "
+      "match monitor saw no pattern match touch them, otherwise the case is excluded and counted.",
+      _D, "paired executions + RegexMatch event monitor deciding inertness; value/span metamorphic oracle", "DESIGN.md 3/C09")
